@@ -345,8 +345,8 @@ class ipv6 (packet_base):
       return
 
     length = self.payload_length
-    if length > len(raw):
-      length = len(raw) # Clamp to what we've got
+    if length > len(raw) - offset:
+      length = len(raw) - offset # Clamp to what we've got
       self.msg('(ipv6) warning IP packet data incomplete (%s of %s)'
                % (len(raw), self.payload_length))
 
